@@ -57,6 +57,32 @@ PROPS = {
         "assumptions": ["net.ParseCIDR / ParseMAC / InterfaceByName are environment: the harness reports their results to the model",
                         "the id-to-URL wiring in run.go (package main) is covered by the resolver/e2e engines of C06, not here"],
     },
+    "C12": {
+        "proof_files": ["Proofs/DiscoveryFacts.v", "Proofs/ConfigFacts.v"],
+        "runs": [{"engine": "flow", "args": [], "n_quick": 250, "n_thorough": 20000, "netns": True, "mountns": True}],
+        "trivial_tags": [r"^up$"],
+        "rule": "random hosts files (v4/v6/zone/invalid addresses, several names per line, mixed case, comments, CR, missing final "
+                "newline) bind-mounted over /etc/hosts in a private mount namespace and read by the real discovery.Hosts; 8 queries per "
+                "file through the exported Proxy.Resolve (A/AAAA/PTR/other types; names in random case; reverse names for listed, "
+                "private, public, partial, over-long, non-numeric and over-range labels; RD on/off) with bogus-priv, local and discovery "
+                "resolvers on/off and 5 upstream outcomes; compared: upstream call count, rcode, answer rdata list or relayed bytes. "
+                "non-trivial = answered locally / from discovery / NXDOMAIN by the proxy",
+        "assumptions": ["net.ParseIP / IP.String are environment (table supplied by the harness, formatter re-implemented in the driver)",
+                        "names and files are ASCII (strings.ToLower / strings.Fields are Unicode-aware in Go)"],
+    },
+    "C18": {
+        "proof_files": ["Proofs/DiscoveryFacts.v", "Proofs/ConfigFacts.v"],
+        "runs": [{"engine": "discovery", "args": [], "n_quick": 2500, "n_thorough": 200000},
+                 {"engine": "mdns", "args": [], "n_quick": 12, "n_thorough": 400, "netns": True}],
+        "trivial_tags": [r"/miss$", r"^err$", r"^empty$", r"^n1$"],
+        "rule": "appendUniq insertion sequences (1-8 adds over a 16-word pool; judged against sorted insertion); dnsmasq and isc-dhcpd lease "
+                "files (repeated names/addresses/MACs, mixed case, '*' names, garbage lines) x 6 lookups (host incl. .local alias, addr, "
+                "mac); hosts files x 5 lookups; merlin client lists incl. damaged ones; mDNS: histories of announcement packets through a "
+                "real UDP socket into the real reader, half of them exceeding the cap of 1000 names with refreshes of early names, both "
+                "views dumped and compared, views_agree evaluated on the implementation's dump. non-trivial = lookup hit / n>=2 / parsed list",
+        "assumptions": ["ASCII input (bytes.ToLower / strings.ToLower are Unicode-aware)",
+                        "one A/AAAA record per mDNS packet (Go map iteration order inside a packet is arbitrary); distinct time stamps"],
+    },
     "C13": {
         "proof_files": WIRE,
         "runs": [
